@@ -231,7 +231,7 @@ func runC01(c c01Case, rng *rand.Rand, r *rep.Report) (key, msg string, stats ma
 				so.SetPerMessageDeflate(&types.PerMessageDeflate{Threshold: c.PMD})
 			}
 			w := rig.NewWorld(rig.Options{Server: so})
-			defer w.Shutdown()
+			defer w.Finish()
 			cl, err := w.Connect(rig.ClientCfg{Rev: c.Rev, Transport: c.Transport, B64: c.B64, JSONP: c.JSONP, J: "7", AcceptEnc: c.AcceptEnc, WSCompress: c.PMD >= 0})
 			rig.Wait()
 			var sock engine.Socket = w.Socket(0)
